@@ -121,6 +121,51 @@ func writeShape(name, modelID string, writes, deletes []string) shape {
 		}}
 }
 
+// halfKinds: what ONE half (the writes, or the deletes) of a Write request can be with respect to modules.
+var halfKinds = []string{"absent", "moda", "modb", "no-module"}
+
+// the tuple a half of each kind carries: writes add a new tuple, deletes remove a seeded one
+// (targetSeedTuples), so that every request of the product is valid with authorization bypassed.
+var halfTuple = map[string]map[string]string{
+	"writes":  {"moda": "ta:2#member@user:u1", "modb": "tb:2#member@user:u1", "no-module": "doc:2#viewer@user:u1"},
+	"deletes": {"moda": "ta:1#member@user:u1", "modb": "tb:1#member@user:u1", "no-module": "doc:1#viewer@user:u1"},
+}
+
+// names of the product cells that existed before the product was enumerated (kept for old replay files)
+var legacyHalfNames = map[string]string{
+	"moda|absent": "module-a", "modb|absent": "module-b", "no-module|absent": "no-module",
+	"absent|moda": "delete-module-a", "moda|modb": "write-a-delete-b", "absent|no-module": "delete-no-module",
+}
+
+// writeHalfProduct: the full product {writes half} x {deletes half} over halfKinds, minus the empty
+// request: 15 Write requests. A request is confined to one module only if EVERY tuple of BOTH halves
+// carries that module; the span (and so the reference verdict) is computed over the union of both halves.
+func writeHalfProduct() []shape {
+	var out []shape
+	for _, wk := range halfKinds {
+		for _, dk := range halfKinds {
+			if wk == "absent" && dk == "absent" {
+				continue
+			}
+			var ws, ds []string
+			if wk != "absent" {
+				ws = []string{halfTuple["writes"][wk]}
+			}
+			if dk != "absent" {
+				ds = []string{halfTuple["deletes"][dk]}
+			}
+			name := legacyHalfNames[wk+"|"+dk]
+			if name == "" {
+				name = "halves/writes=" + wk + ",deletes=" + dk
+			}
+			s := writeShape(name, "", ws, ds)
+			s.Span.Writes, s.Span.Deletes = wk, dk
+			out = append(out, s)
+		}
+	}
+	return out
+}
+
 func evalItemsOutcome(resp *authzenv1.EvaluationsResponse, err error) Outcome {
 	if err != nil {
 		return classify(err)
@@ -193,7 +238,8 @@ func allShapes() []shape {
 	}
 	items := []*authzenv1.EvaluationsItemRequest{{Resource: res}, {Resource: &authzenv1.Resource{Type: "doc", Id: "2"}}}
 
-	sh := []shape{
+	sh := writeHalfProduct()
+	sh = append(sh, []shape{
 		{Method: of + "Read", Name: "tuple-key", Kind: kindStore, Call: func(w *world, ctx context.Context, s string) Outcome {
 			_, err := w.srv.Read(ctx, &openfgav1.ReadRequest{StoreId: s, TupleKey: &openfgav1.ReadRequestTupleKey{Object: "doc:1", Relation: "viewer", User: "user:u1"}})
 			return classify(err)
@@ -203,20 +249,17 @@ func allShapes() []shape {
 			return classify(err)
 		}},
 
-		writeShape("module-a", "", []string{"ta:2#member@user:u1"}, nil),
-		writeShape("module-b", "", []string{"tb:2#member@user:u1"}, nil),
 		writeShape("modules-a+b", "", []string{"ta:2#member@user:u1", "tb:2#member@user:u1"}, nil),
-		writeShape("no-module", "", []string{"doc:2#viewer@user:u1"}, nil),
 		writeShape("module-a+no-module", "", []string{"ta:2#member@user:u1", "doc:2#viewer@user:u1"}, nil),
 		writeShape("no-module+module-a", "", []string{"doc:2#viewer@user:u1", "ta:2#member@user:u1"}, nil),
-		writeShape("delete-module-a", "", nil, []string{"ta:1#member@user:u1"}),
-		writeShape("write-a-delete-b", "", []string{"ta:2#member@user:u1"}, []string{"tb:1#member@user:u1"}),
-		writeShape("delete-no-module", "", nil, []string{"doc:1#viewer@user:u1"}),
 		writeShape("relation-module-b-in-type-a", "", []string{"tmix:1#rb@user:u1"}, nil),
 		writeShape("type-module-a-relation-default", "", []string{"tmix:1#ra@user:u1"}, nil),
 		writeShape("one-type-two-relation-modules", "", []string{"tmix:1#ra@user:u1", "tmix:1#rb@user:u1"}, nil),
 		writeShape("module-a-explicit-model", model2, []string{"ta:2#member@user:u1"}, nil),
 		writeShape("old-model-without-modules", model1, []string{"doc:2#viewer@user:u1"}, nil),
+		writeShape("both-halves-two-tuples-one-module", "", []string{"ta:2#member@user:u1", "tmix:1#ra@user:u1"}, []string{"ta:1#member@user:u1"}),
+		writeShape("writes-two-modules-delete-module-a", "", []string{"ta:2#member@user:u1", "tb:2#member@user:u1"}, []string{"ta:1#member@user:u1"}),
+		writeShape("write-module-a-deletes-module-a+no-module", "", []string{"ta:2#member@user:u1"}, []string{"ta:1#member@user:u1", "doc:1#viewer@user:u1"}),
 
 		{Method: of + "Check", Name: "latest-model", Kind: kindStore, Call: func(w *world, ctx context.Context, s string) Outcome {
 			_, err := w.srv.Check(ctx, &openfgav1.CheckRequest{StoreId: s, TupleKey: ctk("doc:1#viewer@user:u1")})
@@ -346,7 +389,7 @@ func allShapes() []shape {
 			_, err := w.srv.GetConfiguration(ctx, &authzenv1.GetConfigurationRequest{StoreId: s})
 			return classify(err)
 		}},
-	}
+	}...)
 	return sh
 }
 
